@@ -13,7 +13,7 @@ pub fn parse(s: &str) -> Vec<Item> {
     let mut stack: Vec<Vec<Item>> = vec![vec![]];
     let mut word = String::new();
     for c in s.chars() {
-        let mut flush = |stack: &mut Vec<Vec<Item>>, word: &mut String| {
+        let flush = |stack: &mut Vec<Vec<Item>>, word: &mut String| {
             if !word.is_empty() {
                 stack.last_mut().unwrap().push(Item::Word(std::mem::take(word)));
             }
